@@ -284,7 +284,9 @@ OmeRule(r) ==
     [] r = "mom-h" -> [at |-> 2, sec |-> "S", col |-> 2]
     [] r = "num" -> [at |-> 1, sec |-> "NS", col |-> 0]
 OmeRules(k) == IF k = 1 THEN {"mom-g", "mom-q", "mom-h", "num"} ELSE {"mom-g", "mom-q", "num"}
-OmeAcc(k) == CASE k = 1 -> -900 [] k = 2 -> -400 [] k = 3 -> -300
+(* first order exact; second order exact expressions with approximated g-functions (unchanged    *)
+(* tree 1.6e-8); third order parametrised a_Hg, fitted a_qq^NS (unchanged tree 1.3e-7, limit 1e-7) *)
+OmeAcc(k) == CASE k = 1 -> -900 [] k = 2 -> -500 [] k = 3 -> -400
 PlanC29Sum ==
   {c \in {[law |-> "OmeSumRule", rule |-> r, def |-> OmeRule(r), k |-> k, nf |-> nf, msbar |-> m, j |-> j] :
             r \in {"mom-g", "mom-q", "mom-h", "num"}, k \in 1..3, nf \in OmeNf, m \in {0, 1}, j \in Pts} :
